@@ -30,6 +30,14 @@ impl<TI: GraphNameIndex + Default> GenericLightDataset<TI> {
     }
 }
 
+#[cfg(feature = "verif_hooks")]
+impl<TI: TermIndex> GenericLightDataset<TI> {
+    /// Verification hook (only with feature `verif_hooks`): the term index of this store.
+    pub fn verif_term_index(&self) -> &TI {
+        &self.terms
+    }
+}
+
 impl<TI: GraphNameIndex> Dataset for GenericLightDataset<TI> {
     type Quad<'x>
         = Gspo<<TI::Term as Term>::BorrowTerm<'x>>
@@ -221,6 +229,14 @@ impl<TI: GraphNameIndex + Default> GenericFastDataset<TI> {
             posg: BTreeSet::new(),
             ospg: BTreeSet::new(),
         }
+    }
+}
+
+#[cfg(feature = "verif_hooks")]
+impl<TI: GraphNameIndex> GenericFastDataset<TI> {
+    /// Verification hook (only with feature `verif_hooks`): the term index of this store.
+    pub fn verif_term_index(&self) -> &TI {
+        &self.terms
     }
 }
 
